@@ -5,6 +5,7 @@ ASSUME = [
     "'stays clear of the grid border' = support at least ceil(max|offset|)+3 cells from every border before the step (generator) and no charge on the border cells after it (verified per case)",
     "rounding model: |sum_out - sum_in| <= 4*2^-24*(points+1)*sum|in| (x(1+4*e1/delta^2) for Fokker-Planck)",
     "Fokker-Planck: tolerated defect <= 1.5*e1 times the charge in rows within 3 cells of the zero-energy bin, 4-point stencil with damping only; must scale with e1 (checked with e1 and e1/2) and vanish for the 3-point stencil",
+    "program part: runs with outstep 1, SavePhaseSpace 1, RenormalizeCharge -1 and a start distribution of 0.4-0.6 sigma on 96-160 cells (a step is judged when, in the record before it, the |charge| within [largest possible displacement of the step + 12] cells of the border is below 5 % of the per-step tolerance): the plain sum of every bunch's cells may change per recorded step by at most 4*2^-24*(points+1)*sum|f| (four maps) (+ the Fokker-Planck allowance for the 4-point stencil with damping) and over the run by 4*sqrt(steps) times that; classes: DampingTime 0 (no Fokker-Planck map), FPType 0, 3-point stencil, 4-point stencil; with/without wake, one or two bunches",
     "sums are plain double-precision sums over all cells of all bunches, computed by the harness",
 ]
 
@@ -21,5 +22,7 @@ def run(ctx):
     core.run_harness(ctx, "c01", 200 if th else 16, variant="asan", args=["--mode", "impulse"])
     ctx.min_events = {"map_applications": 1000, "impulse_columns": 2000, "fp_columns": 50,
                       "fp_band_rows": 5}
+    from checks import c01_prog
+    c01_prog.run(ctx)
     if ctx.events.get("generator_edge_contact", 0):
         ctx.inconcl("%d cases touched the border after the step and were not judged" % ctx.events["generator_edge_contact"])
